@@ -1,5 +1,133 @@
-import OpusModel.Framing
+import OpusProofs.FramingSafe
+/-
+  Property C06 — "Packet parser accepts exactly RFC 6716 framing and reports the true frames".
+
+  Model:  `Opus.Framing.parseImpl`   (transcription of `opus_packet_parse_impl`, src/opus.c:194-353)
+  Spec:   `Opus.FramingSpec`         (`Packet`, `serialize`, `Valid`, `view`: RFC 6716 §3 + App. B)
+  Every theorem below quantifies over ALL byte strings / ALL packets, in BOTH framings
+  (`sd = false`: standard, `sd = true`: self-delimited).
+-/
 namespace OpusProps.C06
-open Opus Opus.Framing
-theorem placeholder : parseImpl false [] = .err .invalidPacket := rfl
+open Opus Opus.Framing Opus.FramingSpec Opus.FramingProofs
+
+/-- Completeness ("if" direction): every packet satisfying the RFC framing rules R1–R7, written out
+    as the RFC prescribes, is accepted, and the reported TOC, frame count, frame sizes, payload
+    offset, padding length and consumed length are exactly those of the packet.  In self-delimited
+    framing any bytes may follow (the next stream's packet). -/
+theorem parse_complete (sd : Bool) (p : Packet) (hv : Valid p) (rest : Bytes)
+    (hrest : sd = false → rest = []) :
+    parseImpl sd (serialize sd p ++ rest) = .ok (view sd p) :=
+  FramingProofs.parse_complete sd p hv rest hrest
+
+/-- Soundness ("only if" direction): whatever byte string is accepted is the serialisation of an
+    RFC-valid packet (followed by unconsumed bytes only in the self-delimited framing), and what
+    the parser reports is that packet's view. -/
+theorem parse_sound (sd : Bool) (bs : Bytes) (hb : BytesOk bs) (r : Parsed)
+    (h : parseImpl sd bs = .ok r) :
+    ∃ p rest, Valid p ∧ bs = serialize sd p ++ rest ∧ (sd = false → rest = []) ∧ r = view sd p :=
+  FramingProofs.parse_sound sd bs hb r h
+
+/-- Accepted **iff** RFC-valid (standard framing), as one statement. -/
+theorem parse_accepts_iff (bs : Bytes) (hb : BytesOk bs) :
+    (∃ r, parseImpl false bs = .ok r) ↔ (∃ p, Valid p ∧ bs = serialize false p) := by
+  constructor
+  · rintro ⟨r, h⟩
+    obtain ⟨p, rest, hv, hbs, hr, _⟩ := FramingProofs.parse_sound false bs hb r h
+    exact ⟨p, hv, by rw [hbs, hr rfl]; simp⟩
+  · rintro ⟨p, hv, hbs⟩
+    exact ⟨view false p, by
+      have := FramingProofs.parse_complete false p hv [] (fun _ => rfl)
+      simpa [hbs] using this⟩
+
+/-- Accepted **iff** it starts with an RFC-valid self-delimited packet (Appendix B framing). -/
+theorem parse_accepts_iff_sd (bs : Bytes) (hb : BytesOk bs) :
+    (∃ r, parseImpl true bs = .ok r) ↔ (∃ p rest, Valid p ∧ bs = serialize true p ++ rest) := by
+  constructor
+  · rintro ⟨r, h⟩
+    obtain ⟨p, rest, hv, hbs, _, _⟩ := FramingProofs.parse_sound true bs hb r h
+    exact ⟨p, rest, hv, hbs⟩
+  · rintro ⟨p, rest, hv, hbs⟩
+    exact ⟨view true p, by
+      have := FramingProofs.parse_complete true p hv rest (fun h => by cases h)
+      rw [hbs]; exact this⟩
+
+/-- Everything reported lies inside the input: at most 48 frames, each at most 1275 bytes, the
+    frames and the padding end at the reported consumed length, which does not exceed the input. -/
+theorem parse_in_bounds (sd : Bool) (bs : Bytes) (hb : BytesOk bs) (r : Parsed)
+    (h : parseImpl sd bs = .ok r) :
+    r.count = r.sizes.length ∧ 1 ≤ r.count ∧ r.count ≤ 48 ∧ (∀ s ∈ r.sizes, s ≤ 1275) ∧
+    r.padOffset + r.padLen = r.packetOffset ∧ r.packetOffset ≤ bs.length ∧
+    (sd = false → r.packetOffset = bs.length) := by
+  obtain ⟨p, rest, hv, hbs, hr, hview⟩ := FramingProofs.parse_sound sd bs hb r h
+  subst hview
+  have hF : sumN p.lens = p.frames.flatten.length := sumN_map_length _
+  have hlen : (serialize sd p).length = (header sd p).length + p.frames.flatten.length + (padBytes p).length := by
+    simp [serialize]; omega
+  have hcnt : 1 ≤ p.frames.length ∧ p.frames.length ≤ 48 := by
+    have h4 : p.toc % 4 < 4 := Nat.mod_lt _ (by decide)
+    have hcases : p.code = 0 ∨ p.code = 1 ∨ p.code = 2 ∨ p.code = 3 := by unfold Packet.code; omega
+    rcases hcases with hc | hc | hc | hc
+    · have := (hv.code0 hc).1; omega
+    · have := (hv.code1 hc).1; omega
+    · have := (hv.code2 hc).1; omega
+    · obtain ⟨h1, h2, _⟩ := hv.code3 hc
+      have hge := frameDur48_ge p.toc (List.mem_range.mpr hv.toc_byte)
+      refine ⟨h1, ?_⟩
+      apply Decidable.byContradiction; intro hgt
+      have : 120 * 49 ≤ frameDur48 p.toc * p.frames.length := Nat.mul_le_mul hge (by omega)
+      omega
+  refine ⟨by simp [view, Packet.lens], hcnt.1, hcnt.2, ?_, ?_, ?_, ?_⟩
+  · intro s hs
+    simp [view, Packet.lens] at hs
+    obtain ⟨f, hf, hfl⟩ := hs
+    rw [← hfl]; exact hv.frame_max f hf
+  · simp only [view, Parsed.padOffset]; rw [hF, hlen]
+  · simp only [view]; rw [hbs]; simp
+  · intro hsd; simp only [view]; rw [hbs, hr hsd]; simp
+
+/-- "Reads only the packet": on EVERY byte string, in both framings, the parser never needs a byte
+    outside the supplied buffer and trips no assertion. -/
+theorem parse_reads_only_packet (sd : Bool) (bs : Bytes) :
+    parseImpl sd bs ≠ .oob ∧ parseImpl sd bs ≠ .abort := by
+  have := parseImpl_nofault sd bs
+  constructor <;> intro h <;> rw [h] at this <;> simp [fault] at this
+
+/-- Failures are `OPUS_INVALID_PACKET` (or `OPUS_BAD_ARG` for a negative length), never anything else. -/
+theorem parse_err_kind (sd : Bool) (bs : Bytes) (len : Int) (e : Err)
+    (h : parseImplLen sd bs len = .err e) : e = .invalidPacket ∨ (e = .badArg ∧ len < 0) := by
+  unfold parseImplLen at h
+  split at h
+  · rename_i hl; simp at h; exact Or.inr ⟨h.symm, hl⟩
+  · left
+    generalize bs.take len.toNat = b at h
+    exact FramingProofs.parseImpl_err_invalid sd b e h
+
+/-- `encode_size` (used by the repacketizer and the encoder) writes the RFC length coding. -/
+theorem encodeSize_eq_spec (n : Nat) : encodeSize n = encLen n := rfl
+
+/-- The TOC helpers agree with the spec's reading of the TOC for every TOC byte:
+    frame duration (Table 2), channel count, and the three modes partition the configs. -/
+theorem helpers_agree : ∀ toc ∈ List.range 256,
+    samplesPerFrame toc 48000 = frameDur48 toc ∧
+    getNbChannels toc = (if toc / 4 % 2 = 1 then 2 else 1) ∧
+    (getMode toc = MODE_SILK_ONLY ↔ toc / 8 % 32 < 12) ∧
+    (getMode toc = MODE_HYBRID ↔ 12 ≤ toc / 8 % 32 ∧ toc / 8 % 32 < 16) ∧
+    (getMode toc = MODE_CELT_ONLY ↔ 16 ≤ toc / 8 % 32) ∧
+    1101 ≤ getBandwidth toc ∧ getBandwidth toc ≤ 1105 ∧
+    (∀ fs ∈ [8000, 12000, 16000, 24000, 48000], samplesPerFrame toc fs * (48000 / fs) = samplesPerFrame toc 48000) := by
+  decide +kernel
+
+/-! ### Non-vacuity: concrete packets satisfy the hypotheses -/
+
+/-- A 3-frame code-3 VBR packet (CELT 20 ms) with a two-link padding chain is `Valid`. -/
+def exPad : Pad := { n255 := 1, last := 2, bytes := List.replicate 256 0 }
+def exPacket : Packet :=
+  { toc := 0xFB, frames := [[1, 2, 3], [], List.replicate 300 7], vbr := true, pad := some exPad }
+
+example : parseImpl false (serialize false exPacket) = .ok (view false exPacket) := by decide +kernel
+example : parseImpl true (serialize true exPacket ++ [9, 9]) = .ok (view true exPacket) := by decide +kernel
+example : (view true exPacket).sizes = [3, 0, 300] ∧ (view true exPacket).padLen = 256 := by decide +kernel
+/-- and a rejected one: code 1 with an odd payload. -/
+example : parseImpl false [0x01, 1, 2, 3] = .err .invalidPacket := by decide +kernel
+
 end OpusProps.C06
